@@ -17,6 +17,9 @@ pub struct Case {
     pub position: u8,
     /// write the minimal text without optional whitespace
     pub tight: bool,
+    /// whitespace runs that replace the single spaces of the minimal text (see `vary_whitespace`); empty = spaces
+    #[serde(default)]
+    pub breaks: Vec<u8>,
 }
 
 pub struct C13;
@@ -268,7 +271,7 @@ impl Property for C13 {
 
     fn cases(&self, tier: Tier) -> u64 {
         match tier {
-            Tier::Quick => 400_000,
+            Tier::Quick => 1_200_000,
             Tier::Thorough => 10_000_000,
         }
     }
@@ -283,7 +286,14 @@ impl Property for C13 {
         let depth = 1 + t.draw(5);
         let mut excluded = 0;
         let expr = gen_expr(t, depth, ctx, &mut excluded);
-        Case { expr, position, tight }
+        let mut breaks = Vec::new();
+        if t.chance(1, 4) {
+            let n = 1 + t.draw(5);
+            for _ in 0..n {
+                breaks.push(t.weighted(&[3, 4, 1, 1, 1, 1]) as u8);
+            }
+        }
+        Case { expr, position, tight, breaks }
     }
 
     fn enum_count(&self, _tier: Tier, _ctx: &Ctx) -> u64 {
@@ -296,7 +306,7 @@ impl Property for C13 {
         if ctx.excluded("c13_in_single") && has_single_in(&item.expr) {
             return None;
         }
-        Some(Case { expr: item.expr.clone(), position: (index % 2) as u8, tight: (index / 2) % 2 == 1 })
+        Some(Case { expr: item.expr.clone(), position: (index % 2) as u8, tight: (index / 2) % 2 == 1, breaks: Vec::new() })
     }
 
     fn enum_description(&self) -> Option<String> {
@@ -306,7 +316,10 @@ impl Property for C13 {
     fn check(&self, case: &Case, _ctx: &Ctx, obs: &mut Obs) -> Result<(), Failure> {
         let min_tokens = Renderer::minimal().expr(&case.expr);
         let full_tokens = Renderer::full().expr(&case.expr);
-        let min_text = if case.tight { join_tight(&min_tokens) } else { join_canonical(&min_tokens) };
+        let min_text = vary_whitespace(&if case.tight { join_tight(&min_tokens) } else { join_canonical(&min_tokens) }, &case.breaks);
+        if case.breaks.iter().any(|b| matches!(b, 1 | 3 | 4)) {
+            obs.label("line-breaks");
+        }
         let full_text = join_canonical(&full_tokens);
         let min_stmt = statement(case.position, &min_text);
         let full_stmt = statement(case.position, &full_text);
